@@ -285,6 +285,9 @@ REGRESSION_JOBS = [
     # fixed d05bf62: -D (diagnostics) with a molecule longer than the reference aborted the run in the primary-correlation plot; the same job keeps the
     # diagnostics option in every tier of the properties about the records: drawing the plots must not change or prevent them
     dict(**{'for': ('C07', 'C01', 'C03')}, job=dict(seed=4242, modes=['best'], params={'D': True}, generator='diag', style=0)),
+    # fixed (see known_findings.json, D9): the join of a first- and a second-pass record aborted the run with IndexError when the conflicting sub-run of
+    # one part held no aligned pair (AlignmentSegment.slice trimmed trailing unpaired labels off an already empty list)
+    dict(**{'for': ('C07', 'C04', 'C08')}, job=dict(seed=1038, modes=['best', 'all'], params={'dp': 0.004}, kinds=pl.KINDS, weights=None, odd_refs=False, style=0)),
 ]
 
 
